@@ -480,8 +480,9 @@ REGISTRY["C17"] = {
                    "0..3 sit in WaitUntilComplete and 0..3 deliver non-matching events; schedule perturbation at all hook sites, GOMAXPROCS 4/16. Oracle: any "
                    "race report with a frame in a non-test file of the repository is a violation (reports wholly inside the harness fail the run as inconclusive); "
                    "any panic / worker crash is a violation; at every quiescent point the pending set, and at the end completion and the flows taken, equal the "
-                   "sequential token game's. In addition the C06 (event-based gateway, competing events delivered concurrently), C10 (boundary events racing the answer) and "
-                   "C11 (catch events, concurrent and back-to-back deliveries) campaigns run under the race detector with the same race / crash / outcome oracles."),
+                   "sequential token game's. In addition the C06 (event-based gateway, competing events delivered concurrently), C10 (boundary events racing the answer), "
+                   "C11 (catch events, concurrent and back-to-back deliveries) and C18 (process sets: several throw events passed at the same moment into one catch event or waiting process, "
+                   "concurrent waiters) campaigns run under the race detector with the same race / crash / outcome oracles."),
     "level_note": "Trusted: the Go race detector (reports only races that occur on executed schedules; none through unsafe).",
     "technique": "rapid property test under the race detector: concurrent API use against a sequential-semantics oracle; crash detection via journal",
     "rule": ("Distinct = descriptor. Non-trivial = >=3 API calls overlapped in time (measured by an active-call counter) and >=2 tasks were pending at once (live tokens); "
@@ -496,6 +497,9 @@ REGISTRY["C17"] = {
          "shards": {"quick": 4, "thorough": 8}, "gomaxprocs": [4, 16, 8, 2], "limit": {"quick": 900, "thorough": 5400}},
         {"name": "TestC11Delivery", "pkg": "props/c11", "label": "race-C11", "checks": {"quick": 50, "thorough": 1500},
          "shards": {"quick": 4, "thorough": 8}, "gomaxprocs": [4, 16, 8, 2], "limit": {"quick": 900, "thorough": 5400}},
+        # process sets: several throws into one catch event / waiting process at the same moment, waiters, caller tracers
+        {"name": "TestC18ProcessSet", "pkg": "props/c18", "label": "race-C18", "checks": {"quick": 60, "thorough": 1500},
+         "shards": {"quick": 8, "thorough": 8}, "gomaxprocs": [4, 16, 8, 2], "limit": {"quick": 900, "thorough": 5400}},
     ],
 }
 
